@@ -1,5 +1,5 @@
-// Counterexample found by mirsym/z3 for property C06, template loop_clause_and_filter: loop { conde { q == p0, q == 7 }, q != p0 } with parameters [1]: engine answer 0 is not a reference answer: the ground instance q = [] is an instance of an engine answer but not a solution
-// Replay: /verif/check C06 --replay /verif/replay/cases/C06-loop_clause_and_filter_spurious.rs
+// Counterexample found by mirsym/z3 for property C06, template loop_two_clauses: |x, y| { q == [x, y], loop { x == p0, y == p1 } } with parameters [0, -3]: engine answer 1 is not a reference answer (or is returned too often) (same ground instances; expected answers ['[0, -3]'])
+// Replay: /verif/check C06 --replay /verif/replay/cases/C06-loop_two_clauses_order_or_count.rs
 #![allow(unused_imports, unused_variables, unused_mut)]
 use proto_vulcan::prelude::*;
 use proto_vulcan::lterm::LTerm;
@@ -29,11 +29,16 @@ pub fn succ_head(u: T, v: T) -> Goal<TU, TE> { Goal::dynamic(Rc::new(Succ { u, v
 
 #[test]
 fn replay() {
-    let p0: T = LTerm::from(1);
+    let p0: T = LTerm::from(0);
+    let p1: T = LTerm::from(-3);
     let query = proto_vulcan_query!(|q| {
-        loop { conde { q == p0, q == 7 }, q != p0 },
-        q == []
+        |x, y| { q == [x, y], loop { x == p0, y == p1 } }
     });
-    let n = query.run().take(64).count();
-    assert_eq!(n > 0, false, "q = [] must not be a solution");
+    let re = |s: String| { let mut o = String::new(); let mut it = s.chars().peekable();
+        while let Some(c) = it.next() { o.push(c); if c == '_' { if it.peek() == Some(&'.') { it.next(); while it.peek().map_or(false, |d| d.is_ascii_digit()) { it.next(); } } } } o };
+    let mut got: Vec<String> = query.run().take(64).map(|r| re(format!("{}", *r.q))).collect();
+    let mut expected: Vec<String> = vec!["[0, -3]".to_string()];
+    got.sort();
+    expected.sort();
+    assert_eq!(got, expected);
 }
